@@ -121,7 +121,8 @@ def rotvec_strategy():
         'norm': st.one_of(st.sampled_from([0.0, THR, float(np.pi), float(np.sqrt(1e-6)), 1e-12, 1.0]),
                           near_thr(), near_thr(),
                           st.floats(-12, float(np.log10(np.pi))).map(lambda e: float(min(10.0 ** e, np.pi))),
-                          st.floats(-5, -1).map(lambda e: float(10.0 ** e))),
+                          st.floats(-5, -1).map(lambda e: float(10.0 ** e)),
+                          st.floats(-10, -0.5).map(lambda e: float(np.pi - 10.0 ** e))),      # approaching pi from below
         'dir': st.one_of(st.sampled_from([[1.0, 0.0, 0.0], [0.0, 1.0, 0.0], [0.0, 0.0, 1.0], [1.0, 1.0, 1.0], [1.0, -1.0, 0.0]]),
                          st.lists(st.floats(-1, 1), min_size=3, max_size=3)),
     })
@@ -142,7 +143,7 @@ def run_rotvec(case, ctx):
     nrm = float(np.linalg.norm(rv))
     n2 = float(np.sum(rv ** 2))
     ctx.label('branch=' + ('series' if not n2 > 1e-6 else 'trig'),
-              'norm=' + ('0' if nrm == 0 else '<1e-5' if nrm < 1e-5 else 'near_thr' if 1e-5 <= nrm <= 0.1 else '<1' if nrm < 1 else '>=1'))
+              'norm=' + ('0' if nrm == 0 else '<1e-5' if nrm < 1e-5 else 'near_thr' if 1e-5 <= nrm <= 0.1 else '<1' if nrm < 1 else 'near_pi' if nrm > np.pi - 0.01 else '>=1'))
     M = np.full((3, 3), np.nan)
     ctx.sut(ni.mat_from_rotvec, rv, M)
     ctx.check(np.all(np.isfinite(M)), 'not_finite', str(M))
